@@ -1,5 +1,5 @@
 use crate::report::Ctx;
-pub mod c01; pub mod c02; pub mod c03; pub mod c04; pub mod c05; pub mod c06; pub mod c07; pub mod c08; pub mod c09; pub mod c10; pub mod c11; pub mod c12; pub mod c13; pub mod c14; pub mod c15; pub mod c16; pub mod c17; pub mod c18;
+pub mod c01; pub mod c02; pub mod c03; pub mod c04; pub mod c05; pub mod c06; pub mod c07; pub mod c08; pub mod c09; pub mod c10; pub mod c11; pub mod c12; pub mod c13; pub mod c14; pub mod c15; pub mod c16; pub mod c17; pub mod c18; pub mod c19;
 pub fn run(ctx: &Ctx) -> i32 {
     match ctx.id.as_str() {
         "C01" => c01::run(ctx),
@@ -20,6 +20,7 @@ pub fn run(ctx: &Ctx) -> i32 {
         "C16" => c16::run(ctx),
         "C17" => c17::run(ctx),
         "C18" => c18::run(ctx),
+        "C19" => c19::run(ctx),
         _ => { eprintln!("MACHINERY: unknown property {}", ctx.id); 2 }
     }
 }
